@@ -90,6 +90,21 @@ fn medium_case(rng: &mut Rng) -> ContCase {
     ContCase { content, dir, pkg: Pkg::OneFile, extra: vec![], id_gap: 0, first_id: 1 }
 }
 
+fn large_table_case(rng: &mut Rng) -> ContCase {
+    // 17 000 contents: the content table (4 bytes each) exceeds 64 KiB, five clusters closed by the blob-count limit
+    let items: Vec<Item> = (0..17_000).map(|_| Item { len: 2, ent: Ent::High, hint: Hint::No, src: Src::Mem, dup_of: None, cat_of: None }).collect();
+    let content = ContentCase { seed: rng.next(), comp: Comp::None, cached: false, items };
+    let files = StoreDef {
+        n: 12,
+        common: vec![PDef { name: "cid".into(), kind: PKind::UInt, col: Col::Seq }, PDef { name: "addr".into(), kind: PKind::Content, col: Col::Seq }],
+        variants: vec![],
+        sort: None,
+        unique_keys: false,
+    };
+    let dir = DirCase { seed: rng.next(), vstores: vec![], stores: vec![files], indexes: vec![IndexDef { name: "files".into(), store: 0, offset: 0, count: 12 }], defer: 0, free: 0 };
+    ContCase { content, dir, pkg: Pkg::TwoFiles, extra: vec![], id_gap: 0, first_id: 1 }
+}
+
 static SPECIMENS: OnceLock<Vec<Specimen>> = OnceLock::new();
 static SPEC_SCRATCH: Mutex<Option<Scratch>> = Mutex::new(None);
 
@@ -101,6 +116,8 @@ pub fn specimen_cases(seed: u64) -> Vec<(String, ContCase, bool)> {
         ("twofiles-lz4".into(), tiny_case(&mut rng, Pkg::TwoFiles, Comp::Lz4(1)), true),
         ("noconcat-lzma".into(), tiny_case(&mut rng, Pkg::NoConcat, Comp::Lzma(0)), true),
         ("medium-zstd".into(), medium_case(&mut rng), false),
+        // a table of more than 64 KiB (17 000 contents), read from a file of its own
+        ("large-table".into(), large_table_case(&mut rng), false),
         // three content packs all recorded with the empty location, joined with the other packs by tools::concat
         ("loose-concat".into(), loose_case(&mut rng), true),
         // the same, the content packs numbered from 0 (a content pack may carry the id 0: the directory pack is not in that list)
@@ -151,7 +168,16 @@ pub fn build_specimen(name: &str, case: &ContCase, small: bool, dir: &Path) -> R
         let view = indep::decode_file(&bytes);
         files.push((f.file_name().unwrap().to_string_lossy().into_owned(), bytes, view));
     }
-    let plan = plan_for(case, Some(&created));
+    let mut plan = plan_for(case, Some(&created));
+    if plan.addrs.len() > 4000 {
+        // a very long content table: every eighth content, plus the first and last hundred (a dump stays within tens of ms)
+        let n = plan.addrs.len();
+        let mut i = 0;
+        plan.addrs.retain(|_| {
+            i += 1;
+            i % 8 == 1 || i <= 100 || i + 100 > n
+        });
+    }
     let pristine = dump_container(&created.path, &plan);
     Ok(Specimen { name: name.to_string(), case: case.clone(), dir: dir.to_path_buf(), files, plan, pristine, small })
 }
@@ -358,7 +384,8 @@ pub fn enumerate(specs: &[Specimen], seed: u64, tier: Tier, only_covered: bool) 
                 }
             } else {
                 // medium specimen: k positions per named structure, plus uniform positions
-                let per = tier.pick(6, 60);
+                // (the specimen with the very long table costs tens of ms per case: fewer positions per structure there)
+                let per = if s.name == "large-table" { tier.pick(1, 12) } else { tier.pick(6, 60) };
                 let mut named: Vec<&indep::Span> = view.spans.iter().filter(|sp| sp.name != "pack body (covered)" && sp.end > sp.start).collect();
                 named.sort_by_key(|sp| (sp.start, sp.end));
                 for sp in named {
@@ -479,6 +506,16 @@ pub fn enumerate(specs: &[Specimen], seed: u64, tier: Tier, only_covered: bool) 
                     rng.shuffle(&mut lens);
                     lens.truncate(60);
                 }
+                // always: the file cut exactly where a pack starts or ends (what then ends the file is a whole pack, tail included)
+                for p in &view.packs {
+                    for l in [p.origin, p.origin + p.hdr.pack_size] {
+                        if l > 0 && l < len {
+                            lens.push(l);
+                        }
+                    }
+                }
+                lens.sort();
+                lens.dedup();
             }
             for l in lens {
                 cases.push((si, Damage::Truncate { file: fi, len: l }));
@@ -592,7 +629,20 @@ pub fn run_for(desc: &Value, ctx: &Ctx, oracle: Oracle) -> CaseOut {
     let changed_named = changed.iter().any(|p| view.owner(*p).is_some()) || matches!(d, Damage::Truncate { .. } | Damage::Append { .. } | Damage::Replace { .. });
     let truncate_full = matches!(d, Damage::Truncate { len, .. } if len as usize >= s.files[d.file()].1.len());
     out.nontrivial = !changed.is_empty() && changed_named && !truncate_full;
-    let got = dump_container(&dir.join("c.jbk"), &s.plan);
+    // CRC-consistent alterations are judged on the checks alone: with its CRC refreshed an altered table is, for the reader,
+    // a well-formed table saying something else (a count of 2^58 values …), which is outside what C05/C06 claim
+    let refit_plan;
+    let plan = if matches!(d, Damage::Refit { .. }) {
+        let mut p = s.plan.clone();
+        p.indexes.clear();
+        p.addrs.clear();
+        p.manifest_free = false;
+        refit_plan = p;
+        &refit_plan
+    } else {
+        &s.plan
+    };
+    let got = dump_container(&dir.join("c.jbk"), plan);
     out.obs.add("items_dumped", got.len() as u64);
     let _class = format!("{}:{}", d.op(), structure_class(&structure));
     match oracle {
